@@ -49,10 +49,23 @@ def space(tier):
             "history_depth": "2 (3 on named graphs)" if tier == "quick" else 3, "trace_length": 3 if tier == "quick" else 4}
 
 
+D14_EXAMPLE = {"kind": "hist", "gs": {"graph": {"0": [[0.03, 0.01], [1, 2, 3]], "1": [[0.11, 2.07], [3]], "2": [[2.05, 0.13], []],
+                                                 "3": [[1.93, 2.21], [0]]}}, "pos": "GENERIC", "slice": "hist",
+               "trace": [[0.17, 1.12], [0.21, 0.34], [1.21, 2.9]], "cfg": {"fam": "D", "ne": True, "avoid": True, "width": 1},
+               "hist": [["M", 3], ["W", 2]]}
+
+
 def cases(tier):
     for c in ps.cases(tier, with_hist=True):
         c["tier"] = tier
         yield c
+    # the recorded input of known finding D14 (4 nodes, 5 edges, widths 1 -> 2) is part of every run
+    yield dict(D14_EXAMPLE, tier=tier)
+    if tier == "thorough":
+        # the 4-node family on which D14 lives: widen after a width-1 match
+        for gs in ms.graph_slice("n4e6"):
+            if gs[1] == 4 and gs[0] == "GENERIC" and bin(gs[2]).count("1") >= 4:
+                yield {"kind": "hist", "gs": list(gs), "slice": "hist", "T": 3, "tier": tier, "only_widen": True}
 
 
 def judge(m, r, graph, trace, c, unique, ctx):
@@ -84,6 +97,17 @@ def judge(m, r, graph, trace, c, unique, ctx):
 def run_case(case):
     res = dict(n=0, st=0, tr=0, tv=0, nt=0, out=[], v=[], k=[])
     depth = 3 if (case.get("tier") == "thorough" or case.get("slice") == "hist-special") else 2
+    if case.get("only_widen") and "hist" not in case:
+        # fixed histories [M(3), W(2)] and [M(3), W(2), W(3)] on every trace of the slice
+        out = res
+        for hist in ([["M", 3], ["W", 2]], [["M", 3], ["W", 2], ["W", 3]], [["M", 2], ["W", 2], ["X", 3]]):
+            r = ps.run(dict(case, hist=hist), cfgs_for, judge, dict(n=0, st=0, tr=0, tv=0, nt=0, out=[], v=[], k=[]), hist_cfgs=HIST, hist_depth=depth)
+            for key in ("n", "st", "tr", "tv", "nt"):
+                out[key] += r[key]
+            out["v"] += r["v"]
+            out["k"] += r["k"]
+            out["out"] = sorted(set(map(repr, out["out"])) | set(map(repr, r["out"])))[:500]
+        return out
     return ps.run(case, cfgs_for, judge, res, hist_cfgs=HIST, hist_depth=depth)
 
 
